@@ -249,7 +249,12 @@ class FsMethods(
 
 
 def _read_file(path):
-    with open(path) as f:
+    try:
+        # bytes that are not valid UTF-8 must not abort the whole command
+        f = open(path, errors='surrogateescape')
+    except TypeError:  # Python 2
+        f = open(path)
+    with f:
         return f.read()
 
 
